@@ -102,6 +102,81 @@ def oracle(ctx):
     ctx.exhaustive = True
 
 
+def policy_peer_audits(ctx):
+    """A standard audit (real CLI over TCP, host-key and group-exchange probes answered) of a peer synthesised from each built-in server
+    policy: lists, host keys, certificates (CA type and size) and moduli exactly as the policy states.  The report must show no failure."""
+    import json
+    import canon
+    import peers as P
+    import runner
+    from ssh_audit.builtin_policies import BUILTIN_POLICIES
+    pols = {}
+    for name, pol in BUILTIN_POLICIES.items():
+        if pol['server_policy']:
+            sig = json.dumps([pol['kex'], pol['host_keys'], pol['optional_host_keys'], pol['ciphers'], pol['macs'], pol['hostkey_sizes'], pol['dh_modulus_sizes']], sort_keys=True)
+            pols.setdefault(sig, (name, pol))
+    cases = sorted(pols.values(), key=lambda x: x[0])
+    if ctx.quick:
+        cases = ctx.rng.sample(cases, min(6, len(cases)))
+    cases = [(n, p, opt) for (n, p) in cases for opt in ((False, True) if p['optional_host_keys'] else (False,))]
+
+    def blob_for(t, d):
+        def plain(kt, bits):
+            if kt.startswith(('ssh-rsa', 'rsa-sha2')): return P.rsa_blob(bits, seed=5)
+            if kt == 'ssh-ed25519': return P.ed25519_blob(seed=5)
+            if kt.startswith('ecdsa-sha2-'): return P.ecdsa_blob(kt[11:].encode(), {256: 65, 384: 97, 521: 133}.get(bits, 65))
+            return None
+        if '-cert-' not in t:
+            return plain(t, d['hostkey_size'])
+        ca = plain(d.get('ca_key_type', ''), d.get('ca_key_size', 0))
+        if ca is None: return None
+        if t.startswith(('ssh-rsa-cert', 'rsa-sha2')): return P.rsa_cert_blob(d['hostkey_size'], ca)   # the key blob of every RSA certificate algorithm is an ssh-rsa-cert-v01 blob
+        if t.startswith('ssh-ed25519-cert'): return P.ed25519_cert_blob(ca)
+        return None
+
+    def do(z, case):
+        name, pol = case[0], case[1]
+        hk = {}
+        keys = list(pol['host_keys']) + [t for t in (pol['optional_host_keys'] or []) if case[2]]   # variant: the optional (certificate) host keys are served too
+        for t, d in (pol['hostkey_sizes'] or {}).items():
+            if t in keys:
+                b = blob_for(t, d)
+                if b is not None: hk[t.encode()] = b
+        dh = pol['dh_modulus_sizes'] or {}
+        want = max(dh.values()) if dh else None
+        srv = P.new_ssh2_server(dict(banner=b'SSH-2.0-OpenSSH_9.9', kex=list(pol['kex']), key=keys, enc=list(pol['ciphers']), mac=list(pol['macs']), hostkeys=hk,
+                                     gex=(lambda a, b, c: want if a <= want <= c else None) if want else None))
+        try:
+            r = z.run(['-j', '--skip-rate-test', '-t', '2', '127.0.0.1:%d' % srv.port], timeout=120)
+            r['served'] = sorted(k.decode() for k in hk)
+            return r
+        finally:
+            srv.shutdown()
+    with runner.Pool(8) as pool:
+        outs = pool.map(do, cases)
+    keys = set()
+    for (name, pol, opt), r in zip(cases, outs):
+        desc = {'op': 'policy-peer-audit', 'policy': name, 'optional_host_keys_served': opt}
+        try:
+            js = canon.load_json(r['out'])
+        except canon.CanonError as e:
+            ctx.violation('policy-peer/no-report', 'standard audit of the peer synthesised from %r: exit %r, %s' % (name, r['rc'], e), desc)
+            continue
+        measured = {k['algorithm'] for k in js.get('key', []) if 'keysize' in k or 'casize' in k} | {f.get('hostkey') for f in js.get('fingerprints', [])}
+        for a in canon.json_algs(js):
+            keys.add((a['cat'], a['name']))
+            fails = [t for (l, t) in a['notes'] if l == 'fail']
+            if fails:
+                ctx.violation('policy-peer-shows-failure/%s/%s' % (a['cat'], a['name']), 'a peer configured exactly per built-in policy %r shows a failure in a standard audit: %s %r: %r' % (name, a['cat'], a['name'], fails), desc)
+        for t in r['served']:
+            if t not in measured:
+                ctx.violation('policy-peer/hostkey-not-measured/%s' % t, 'the audit of the peer synthesised from %r did not measure host key %r' % (name, t), desc)
+        if r['rc'] == 3:
+            ctx.violation('policy-peer-exit-failure', 'standard audit of the peer synthesised from %r exits 3' % name, desc)
+    ctx.extra['policy_peer_audits'] = {'configurations': len(cases), 'distinct_algorithms_seen': len(keys)}
+    ctx.evaluations += len(cases)
+
+
 def model_failures(ctx):
     """When a C17 theorem no longer builds: ask the model for its offender lists (the counter-examples)."""
     out = {}
@@ -116,6 +191,7 @@ def model_failures(ctx):
 def run(ctx):
     ok = ctx.proofs(['C17'])
     oracle(ctx)
+    policy_peer_audits(ctx)
     if not ok:
         ctx.extra['model_offender_lists'] = model_failures(ctx)
         for b in ctx.broken:
